@@ -72,6 +72,10 @@ def close(a, b, ulps=4):
     return abs(a - b) <= ulps * np.spacing(max(abs(a), abs(b)))
 
 
+def rows_alpha(rows):
+    return [[float(a) for a in r] for r, _ in rows]
+
+
 def run(ctx):
     part, ppart, shifts, gvals, comp, conv = [], [], [], [], [], []
     N = ctx.n(250, 2500)
@@ -203,6 +207,19 @@ def run(ctx):
         fcols = [float(f(X[:, j])) for j in range(3)]
         if not np.allclose(np.asarray(f(X), dtype=float), np.array(fcols), rtol=1e-13, atol=0):
             ctx.problem('oracle', 'Signomial evaluated on a matrix differs from evaluation per column', inputs={'f': str(rows)}, failing_input_found=True)
+            return
+        # ... also where exp leaves the double range (|alpha . x| beyond 709): a single point is evaluated in extended precision, so is a matrix
+        Xbig = X * float(ctx.rng.choice([150, 400]))
+        with np.errstate(all='ignore'):
+            mcols = np.array([np.longdouble(f(Xbig[:, j])) for j in range(3)], dtype=np.longdouble)
+            mmat = np.asarray(f(Xbig), dtype=np.longdouble)
+        okb = mmat.shape == mcols.shape and all((np.isnan(a) and np.isnan(b_)) or a == b_ or (np.isfinite(a) and np.isfinite(b_) and abs(a - b_) <= 1e-15 * abs(b_))
+                                                 for a, b_ in zip(mmat.tolist(), mcols.tolist()))
+        ctx.count('matrix_eval_beyond_double_range', bool(np.any(np.abs(np.asarray(rows_alpha(rows), dtype=float) @ Xbig) > 709)))
+        if not okb:
+            ctx.problem('oracle', 'Signomial evaluated on a matrix of far-away points %s gives %s, evaluation per column gives %s'
+                        % (Xbig.tolist(), [repr(v) for v in mmat.tolist()], [repr(v) for v in mcols.tolist()]), inputs={'f': str(rows), 'X': Xbig.tolist()},
+                        failing_input_found=True)
             return
         # conversions
         try:
